@@ -25,7 +25,7 @@ from olvc.evaluator import Machine
 from olvc.interp import Frame, HFn, IRaise, IStop, ifunc_of
 from olvc.oblig import paths_or_undecided
 from olvc.runner import explore
-from olvc.sym import Opaque, Seg, SInt, ctx, mk_bool, tagstr
+from olvc.sym import Opaque, Seg, SInt, Unsupported, ctx, mk_bool, tagstr
 from olvc.tmpl import Hole
 from spec import target_lang as TL
 from suites import c13
@@ -895,9 +895,18 @@ def g_walk(R, tier):
             it_top = Opaque("iter-top", object, next=nxt)
             lowerW, lowerG = Opaque("lowerW", object), Opaque("lowerG", object)
             topns = Opaque("top-namespace", None, cands=frozenset([ns.NamespaceFunction]))
-            W, Gs = [lowerW, it_top], [lowerG, topns]
-            fr.locals["walk_stack"] = W
-            fr.locals["generate_stack"] = Gs
+            # (the two stacks are identified by ROLE in the locals the real prefix left -- the
+            #  namespace stack holds the root namespace, the walk stack the iterator over the
+            #  root's children -- and changed in place)
+            L = fr.locals
+            rootns = [v_ for v_ in L.values() if isinstance(v_, ns.NamespaceGlobal)]
+            g_lists = [k for k, v_ in L.items() if isinstance(v_, list) and len(v_) == 1 and rootns and v_[0] is rootns[0]]
+            w_lists = [k for k, v_ in L.items() if isinstance(v_, list) and len(v_) == 1 and k not in g_lists]
+            if not (len(g_lists) == 1 and len(w_lists) == 1):
+                raise Unsupported(f"loop state of generate_nsp() not identified: namespace stack {g_lists}, walk stack {w_lists}")
+            W, Gs = L[w_lists[0]], L[g_lists[0]]
+            W[:] = [lowerW, it_top]
+            Gs[:] = [lowerG, topns]
             sig = m.run(m.exec_block(loop.body, fr))
             return dict(W=W, G=Gs, made=made, upd=upd, child=child, kids=kids, it_top=it_top, topns=topns, lowerW=lowerW, lowerG=lowerG, sig=sig)
         paths = explore(run)
